@@ -9,7 +9,8 @@ CHECKS = {
    technique="Coq proof (list/string induction) + vm_compute correspondence with core/util.py", design="6/C04"),
 }
 EXEC_NOTE = ("trusted: Coq kernel+vm_compute; hand-written model Exec/Model.v of core/system.py, cells.py, model.py (formula vocabulary: ints/None, calls, "
-             "references by name/attribute, conditional, try/except, raising expressions) tied by the correspondence harness; CPython, networkx modelled not verified")
+             "references by name/attribute, conditional, try/except, try/finally, raising expressions) tied by the correspondence harness; CPython, networkx modelled not verified; "
+             "theorems about the RESULT of a request assume that no failing finally-clause replaced the depth-limit error during it (ghost counter s_masks, trivially true without try/finally; Exec/FinMask.v refutes the statement without it); invariant theorems are unconditional")
 CHECKS.update({
  "C01": dict(text="Coq refinement theorem: the caching executor (call stack, cache, graphs) returns exactly the value of the uncached specification evaluator, "
                   "for every model of the formula vocabulary, every argument tuple and every order of requests; held elements are never re-executed; bound keys are canonical. "
@@ -60,7 +61,7 @@ CHECKS.update({
                   "and exactly the specification's executing chain (Chain.spec_chain: a function of current definitions and inputs only; elements outermost first with the line of the next call "
                   "or of the error), and nothing stays in the rolled-back list; a successful evaluation leaves nothing behind. Excluded from the theorem: the recursion-depth error. The model's "
                   "full tracebacks are compared with mx.get_traceback()/get_error() on every run, and with the reference-interpreter oracle.",
-             note=EXEC_NOTE + "; traceback.TracebackException frame/line semantics modelled; KDeep excluded; the statement try/finally (a formula evaluating cells while a failure passes) runs in 40% of the worlds - see DESIGN section 5 for whether it is a constructor of Exec/Model.v or a (P)-only statement in this revision", technique="Coq proof (chain-instrumented specification, simulation sim3_all by induction on fuel) + vm_compute correspondence of full tracebacks + executing-chain oracle", design="6/C17"),
+             note=EXEC_NOTE + "; traceback.TracebackException frame/line semantics modelled; KDeep excluded; the statement try/finally (SFin: a formula evaluating cells while a failure passes) runs in 40% of the worlds; the exact-traceback theorems take the hypothesis that no failing clean-up replaced the depth-limit error during the request (ghost counter s_masks; Exec/FinMask.v refutes the statement without it)", technique="Coq proof (chain-instrumented specification, simulation sim3_all by induction on fuel) + vm_compute correspondence of full tracebacks + executing-chain oracle", design="6/C17"),
  "C03": dict(text="Coq proof that for every sequence of space/base/member edits the model's members equal the from-scratch re-derivation along the C3 order (plus name uniqueness, the C3 laws "
                   "and evaluation in the sub space), model tied to /repo after every operation by vm_compute correspondence on random and exhaustive small ordered-base DAGs. The pinned tree "
                   "deviated on D1 D2 D2b D3 D33 D34 (D23): all repaired in /repo, their former triggers are generated, their witnesses must pass.",
